@@ -25,6 +25,8 @@ pub struct IncCase {
     pub ignore: bool,
     pub layout: Layout,
     pub absolute: bool,
+    /// how the included files end: 0 line end, 1 no final line end, 2 a // comment without line end
+    pub tail: usize,
 }
 
 fn def(name: &str, body: &str) -> Item {
@@ -35,6 +37,7 @@ fn ifdef(name: &str, lit: &str) -> Item {
 }
 
 pub const A_KINDS: usize = 7;
+pub const SIG_F12: &str = "white-space-behind-include-via-macro-dropped";
 
 fn a_items(kind: usize, bname: &str) -> Vec<Item> {
     match kind {
@@ -69,7 +72,14 @@ fn world(c: &IncCase, tag: &str, absdir: &Path) -> World {
             if places & (1 << bit) != 0 {
                 let path = if d.is_empty() { name.clone() } else { format!("{}/{}", d, name) };
                 let prefix = format!("{}{}_", pfx, bit);
-                let r = render(&items, c.layout, &prefix);
+                let mut r = render(&items, c.layout, &prefix);
+                if c.tail > 0 {
+                    let n = r.text.trim_end().len();
+                    r.text.truncate(n);
+                    if c.tail == 2 {
+                        r.text.push_str("\n// end of file");
+                    }
+                }
                 files.insert(path.clone(), (items.clone(), r));
                 if d.is_empty() {
                     cwd_has.push(name.clone());
@@ -179,6 +189,22 @@ pub fn one(acc: &mut Acc, c: &IncCase) {
     for p in &made {
         let _ = std::fs::remove_file(p);
     }
+    // F12: the white space behind `include `MACRO is dropped, which shows only when the included file
+    // does not end with a line end. Recognised by repairing the input: the same case with a final
+    // line end in every included file must pass every oracle.
+    let mut f12: Option<Option<String>> = None;
+    let mut sig_f12 = |acc: &mut Acc| -> Option<String> {
+        if c.style != 2 || c.tail == 0 {
+            return None;
+        }
+        if f12.is_none() {
+            let mut sc = acc.scratch();
+            one(&mut sc, &IncCase { tail: 0, ..c.clone() });
+            acc.transitions += sc.transitions;
+            f12 = Some(if sc.violation_count == 0 { Some(SIG_F12.to_string()) } else { None });
+        }
+        f12.clone().unwrap()
+    };
     for (which, r) in [("preprocess", r1), ("preprocess_str", r2)] {
         let r = match r {
             Ok(r) => r,
@@ -195,12 +221,14 @@ pub fn one(acc: &mut Acc, c: &IncCase) {
                 let got = crate::models::lexref::significant(pt.text()).unwrap_or_default();
                 if want != got {
                     acc.class("violation");
-                    acc.violation(None, case(), format!("{}: output tokens differ\nexpected: {:?}\ngot:      {:?}\ntop:\n{}", which, want, got, top_src));
+                    let sg = sig_f12(acc);
+                    acc.violation(sg, case(), format!("{}: output tokens differ\nexpected: {:?}\ngot:      {:?}\ntop:\n{}", which, want, got, top_src));
                     return;
                 }
                 if table_sig(&table) != defs_table_sig(&d) {
                     acc.class("violation");
-                    acc.violation(None, case(), format!("{}: define table differs\nexpected: {:?}\ngot:      {:?}\ntop:\n{}", which, table_sig(&table), defs_table_sig(&d), top_src));
+                    let sg = sig_f12(acc);
+                    acc.violation(sg, case(), format!("{}: define table differs\nexpected: {:?}\ngot:      {:?}\ntop:\n{}", which, table_sig(&table), defs_table_sig(&d), top_src));
                     return;
                 }
                 // origins of copied tokens name the file they were copied from
@@ -208,7 +236,8 @@ pub fn one(acc: &mut Acc, c: &IncCase) {
                 let vfs = &w.vfs;
                 if let Err((_, m)) = crate::props::c03::check_origins_with(&pt, &wl, &|f| vfs.files.get(f).map(|x| x.1.text.clone()), &|f, o| vfs.files.get(f).map(|x| x.1.pos.iter().filter_map(|p| p.body).any(|(b, e)| b <= o && o < e)).unwrap_or(false)) {
                     acc.class("violation");
-                    acc.violation(None, case(), format!("{}: {}\ntop:\n{}\noutput: {:?}", which, m, top_src, clip(pt.text(), 300)));
+                    let sg = sig_f12(acc);
+                    acc.violation(sg, case(), format!("{}: {}\ntop:\n{}\noutput: {:?}", which, m, top_src, clip(pt.text(), 300)));
                     return;
                 }
             }
@@ -216,18 +245,21 @@ pub fn one(acc: &mut Acc, c: &IncCase) {
                 acc.class("error-as-predicted");
                 if perr_sig(e) != err_sig(&ge) {
                     acc.class("violation");
-                    acc.violation(None, case(), format!("{}: error differs: expected {}, got {}\ntop:\n{}", which, perr_sig(e), err_sig(&ge), top_src));
+                    let sg = sig_f12(acc);
+                    acc.violation(sg, case(), format!("{}: error differs: expected {}, got {}\ntop:\n{}", which, perr_sig(e), err_sig(&ge), top_src));
                     return;
                 }
             }
             (Ok(()), Err(ge)) => {
                 acc.class("violation");
-                acc.violation(None, case(), format!("{}: unexpected error {}\ntop:\n{}", which, err_sig(&ge), top_src));
+                let sg = sig_f12(acc);
+                    acc.violation(sg, case(), format!("{}: unexpected error {}\ntop:\n{}", which, err_sig(&ge), top_src));
                 return;
             }
             (Err(e), Ok((pt, _))) => {
                 acc.class("violation");
-                acc.violation(None, case(), format!("{}: expected {}, got output {:?}\ntop:\n{}", which, perr_sig(e), clip(pt.text(), 200), top_src));
+                let sg = sig_f12(acc);
+                    acc.violation(sg, case(), format!("{}: expected {}, got output {:?}\ntop:\n{}", which, perr_sig(e), clip(pt.text(), 200), top_src));
                 return;
             }
         }
@@ -336,12 +368,13 @@ pub fn cases(tier: Tier) -> Space<IncCase> {
     let layouts = Space::of(if tier == Tier::Quick { vec![Layout::OwnLine] } else { vec![Layout::OwnLine, Layout::Inline, Layout::IndentCrlf] });
     let bpl = Space::of(if tier == Tier::Quick { vec![1u8, 4] } else { vec![0u8, 1, 2, 4, 6] });
     let abs = Space::of(vec![false, true]);
-    places.product(orders).product(kinds).product(styles).product(flags).product(layouts).product(bpl).product(abs).map(|(((((((a_places, inc_order), a_kind), style), (twice, ignore)), layout), b_places), absolute)| IncCase { a_places, b_places, inc_order, a_kind, style, twice, ignore, layout, absolute })
+    let tails = Space::of(vec![0usize, 1, 2]);
+    places.product(orders).product(kinds).product(styles).product(flags).product(layouts).product(bpl).product(abs).product(tails).map(|((((((((a_places, inc_order), a_kind), style), (twice, ignore)), layout), b_places), absolute), tail)| IncCase { a_places, b_places, inc_order, a_kind, style, twice, ignore, layout, absolute, tail })
 }
 
 pub fn build(tier: Tier) -> Check<'static> {
     let mut c = Check::new("C10", tier, "6/C10");
-    c.rule = "real files: a.svh present in every subset of {cwd, inc1, inc2} (copies carry different marker tokens) x 5 include-path lists x 7 contents (text, define, undef of an outer macro, include guard, nested include of b.svh, usage of an outer macro, usage of an undefined macro) x 3 directive styles (quote, angle, via macro) x once/twice x ignore_include x relative/absolute name x placements of b.svh x layouts; through preprocess and preprocess_str; plus 12 same-line forms x ignore_include and the in-expansion `include; non-trivial = model and implementation agree on a result, distinct by construction".into();
+    c.rule = "real files: a.svh present in every subset of {cwd, inc1, inc2} (copies carry different marker tokens) x 5 include-path lists x 7 contents (text, define, undef of an outer macro, include guard, nested include of b.svh, usage of an outer macro, usage of an undefined macro) x 3 directive styles (quote, angle, via macro) x once/twice x ignore_include x relative/absolute name x placements of b.svh x layouts x 3 endings of the included files (line end, none, a // comment without line end); through preprocess and preprocess_str; plus 12 same-line forms x ignore_include and the in-expansion `include; non-trivial = model and implementation agree on a result, distinct by construction".into();
     c.assumptions = vec![
         "the process changes its working directory to /verif/.work/C10/cwd; file names are unique per worker thread".into(),
         "reference preprocessor models/ppref.rs with the search rule exactly as the property states it".into(),
